@@ -337,7 +337,11 @@ def f_div(a, b):
         ctx().events.append('division by zero')
         if fa is not None and fa != 0:
             return Poison('inf', 'division by zero')
-        return Poison('nonfinite', 'division by zero')
+        if fa is not None and fa == 0:
+            return Poison('nan', '0/0')
+        if is_sym(a) and branch(a == 0):
+            return Poison('nan', '0/0')
+        return Poison('inf', 'division by zero')
     if fa is not None and fa == 0:
         return z3.RealVal(0)
     a, b = zsimp(a), zsimp(b)
@@ -446,7 +450,7 @@ def f_powi(x, n):
 def norm_of(v):
     v = [num(c) for c in v]
     if any(isinstance(c, Poison) for c in v):
-        return Poison('nonfinite', 'norm of non-finite vector')
+        return Poison('nan' if any(isinstance(c, Poison) and c.kind == 'nan' for c in v) else 'nonfinite', 'norm of non-finite vector')
     nz = [c for c in v if not is_zero(c)]
     if len(nz) == 0:
         return 0.0 if MODE[0] == 'conc' else z3.RealVal(0)
@@ -730,8 +734,21 @@ def f_rem(a, m):
         return math.fmod(a, m)
     av, mv = num(a), num(m)
     fm = as_fraction(mv)
-    if fm is None or fm == 0:
-        raise Unsupported('fmod by a symbolic or zero modulus')
+    if fm is not None and fm == 0:
+        return Poison('nan', 'fmod by zero')
+    if fm is None:
+        # symbolic modulus: a = k*m + r with an integer quotient (non-linear, but the quotient is small in the kernels in scope)
+        if not (known_pos(mv)):
+            if branch(mv == 0):
+                return Poison('nan', 'fmod by zero')
+        k = ctx().fresh('k', 'int')
+        r = ctx().fresh('rem')
+        am = f_abs(mv)
+        facts = [av == z3.ToReal(k) * am + r, z3.Implies(av >= 0, z3.And(r >= 0, r < am)), z3.Implies(av < 0, z3.And(r <= 0, r > -am)), k >= -64, k <= 64]
+        ctx().add_def(r, facts)
+        ctx().add_def(k, facts)
+        ctx().events.append('fmod by a symbolic modulus: quotient assumed within [-64, 64]')
+        return r
     fa = as_fraction(av)
     if fa is not None:
         k = int(fa / fm)
